@@ -10,13 +10,16 @@ EXPLANATION = (
     "definitions into the degree argument of Activated(...) w.r.t. the loop over conclusions (independence), abstract "
     "interpretation of one iteration (exactly one append per enabled conclusion, to its own variable, with its own "
     "term and the given implication), enabled guard of Rule.trigger, the non-finite replacement table nan->0, -inf->0, "
-    "+inf->1 and the constructor going through the sanitising setter, hedge order"
+    "+inf->1 and the constructor going through the sanitising setter, hedge order; no numpy in-place interface (copy=False, out=, "
+    "copyto/put, op= on an array parameter) on a value handed in along the trigger path (T2-own); who-may-call for Consequent.modify; "
+    "Consequent.load replaces the list of conclusions (O9) and its automaton equals the consequent grammar (F1)"
 )
 ASSUMPTIONS = ["numpy.nan_to_num keyword semantics"]
 FLOORS = {"L1": 1, "P5": 5, "P4": 3, "T2": 4, "H1": 1, "T2-own": 1, "O9": 2, "F1": 1}
 
 
 def run(check: Check) -> None:
+    wiring.p4_who_modifies(check)
     wiring.modify_rules(check, p5=True, l1=True, h1=True)
     wiring.p4_trigger(check)
     wiring.t2_nonfinite(check)
